@@ -39,11 +39,13 @@ def merge_append(path):
 
 def merge_json_lists(path):
     ours, theirs = json.loads(show(2, path)), json.loads(show(3, path))
+    base = json.loads(show(1, path) or "{}")
     for k, v in theirs.items():
         if isinstance(v, list):
             cur = ours.setdefault(k, [])
             for x in v:
-                if x not in cur:
+                # only what the slice added: an entry of the merge base that we removed or rewrote stays that way
+                if x not in cur and x not in base.get(k, []):
                     cur.append(x)
         elif k not in ours:
             ours[k] = v
